@@ -1,1 +1,59 @@
-//! cqlref::ksname - independent reference (see DESIGN.md 1.3). Owned by the builder of the property that needs it.
+//! cqlref::ksname - independent reference for keyspace identifiers (C20; DESIGN.md 1.3).
+//! Grammar as the property states it: 1..=48 characters, each of [A-Za-z0-9_]. Written over bytes with explicit
+//! ranges; shares nothing with the driver's validator.
+
+/// Is `name` a keyspace identifier the driver may interpolate into `USE`?
+pub fn is_valid(name: &str) -> bool {
+    let b = name.as_bytes();
+    if b.is_empty() || b.len() > 48 {
+        return false;
+    }
+    for &c in b {
+        let ok = (0x30..=0x39).contains(&c) || (0x41..=0x5A).contains(&c) || (0x61..=0x7A).contains(&c) || c == 0x5F;
+        if !ok {
+            return false;
+        }
+    }
+    true
+}
+
+/// The one statement text a valid name may appear in.
+pub fn use_statement(name: &str, case_sensitive: bool) -> String {
+    let mut s = String::from("USE ");
+    if case_sensitive {
+        s.push('"');
+        s.push_str(name);
+        s.push('"');
+    } else {
+        s.push_str(name);
+    }
+    s
+}
+
+/// The keyspace a server resolves the statement to: unquoted identifiers fold to lower case.
+pub fn server_resolves_to(name: &str, case_sensitive: bool) -> String {
+    if case_sensitive { name.to_string() } else { name.to_ascii_lowercase() }
+}
+
+/// Known answers (run at the start of every check that uses this module; a failing reference is exit 2).
+pub fn self_test() -> Result<(), String> {
+    let yes = ["a", "_", "_a", "0", "Z9_", "abcdefghijklmnopqrstuvwxyzABCDEFGHIJKLMNOPQRSTUV"]; // last: 48 chars
+    let no = ["", " ", "a b", "a;", "a\"", "a'", "a-b", "a.b", "a\0", "é", "😀", "abcdefghijklmnopqrstuvwxyzABCDEFGHIJKLMNOPQRSTUVW"]; // last: 49
+    for y in yes {
+        if !is_valid(y) {
+            return Err(format!("ksname reference rejects {y:?}"));
+        }
+    }
+    for n in no {
+        if is_valid(n) {
+            return Err(format!("ksname reference accepts {n:?}"));
+        }
+    }
+    if yes[5].len() != 48 || no[11].len() != 49 {
+        return Err("ksname self-test vectors have the wrong length".into());
+    }
+    if use_statement("Ks", true) != "USE \"Ks\"" || use_statement("Ks", false) != "USE Ks" || server_resolves_to("Ks", false) != "ks" {
+        return Err("ksname statement rendering".into());
+    }
+    Ok(())
+}
